@@ -408,7 +408,7 @@ func c25Run(e *Env, p *c25Plan) {
 	if p.SeekFaultEvery > 0 {
 		nseek := 0
 		simfs.FailSeek = func(h *simfs.Handle, off int64, whence int) error {
-			if off == 0 && whence == io.SeekStart {
+			if off == 0 && whence == 0 { // io.SeekStart
 				nseek++
 				if nseek%p.SeekFaultEvery == 0 {
 					e.Fault("seek_error")
